@@ -1719,6 +1719,18 @@ func runWalCut(o *hx.Out, d cutDesc, origin string) {
 	var tbl []string
 	var ends []int
 	var segb []byte
+	if d.ViaWAL {
+		// WAL.Delete / WAL.DeleteRange return without logging anything when given no keys
+		var kept []entryDesc
+		for _, ed := range d.Entries {
+			if ed.Kind != "write" && len(ed.Keys) == 0 {
+				o.Count("walcut:via_wal_keyless_delete_not_logged")
+				continue
+			}
+			kept = append(kept, ed)
+		}
+		d.Entries = kept
+	}
 	want := make([]string, len(d.Entries))
 	for i, ed := range d.Entries {
 		want[i] = ed.coq()
@@ -1799,30 +1811,63 @@ func runWalCut(o *hx.Out, d cutDesc, origin string) {
 			cuts = append(cuts, c)
 		}
 	}
-	var obs []string
-	allOK := true
-	for _, c := range cuts {
+	// The entries of every read are RETAINED (as CacheLoader.Load hands them to the cache) and
+	// only compared after all reads are done, i.e. after the reader and its buffer pool have
+	// been reused many times. Two reads out of three go through ONE reader that is Reset
+	// between segments (Count() must restart at 0), every third uses a fresh reader.
+	type cutRes struct {
+		c        int
+		errd     bool
+		panicked bool
+		n        int64
+		ents     []tsm1.WALEntry
+	}
+	var results []cutRes
+	var shared *tsm1.WALSegmentReader
+	for ci, c := range cuts {
 		if c < 0 || c > len(segb) {
 			continue
 		}
-		k, errd, panicked, prefixOK := 0, false, false, true
-		var n int64
-		panicked = guard(func() {
-			r := tsm1.NewWALSegmentReader(io.NopCloser(bytes.NewReader(segb[:c])))
+		res := cutRes{c: c}
+		res.panicked = guard(func() {
+			rc := io.NopCloser(bytes.NewReader(segb[:c]))
+			var r *tsm1.WALSegmentReader
+			if ci%3 == 0 {
+				r = tsm1.NewWALSegmentReader(rc)
+			} else {
+				if shared == nil {
+					shared = tsm1.NewWALSegmentReader(rc)
+				} else {
+					shared.Reset(rc)
+				}
+				r = shared
+				o.Count("walcut:reads_with_reused_reader")
+			}
 			for r.Next() {
 				e, err := r.Read()
 				if err != nil {
-					errd = true
+					res.errd = true
 					break
 				}
-				got, okd := describe(e)
-				if !okd || k >= len(want) || got.coq() != want[k] {
-					prefixOK = false
-				}
-				k++
+				res.ents = append(res.ents, e)
 			}
-			n = r.Count()
+			res.n = r.Count()
 		})
+		if res.panicked {
+			shared = nil
+		}
+		results = append(results, res)
+	}
+	var obs []string
+	allOK := true
+	for _, res := range results {
+		c, k, prefixOK := res.c, len(res.ents), true
+		for i, e := range res.ents {
+			got, okd := describe(e)
+			if !okd || i >= len(want) || got.coq() != want[i] {
+				prefixOK = false
+			}
+		}
 		// expected: complete frames before the cut
 		j := 0
 		for j < len(ends) && ends[j] <= c {
@@ -1832,10 +1877,10 @@ func runWalCut(o *hx.Out, d cutDesc, origin string) {
 		if j > 0 {
 			expN = ends[j-1]
 		}
-		if panicked || !prefixOK || k != j || int(n) != expN || errd != (expN != c) {
+		if res.panicked || !prefixOK || k != j || int(res.n) != expN || res.errd != (expN != c) {
 			allOK = false
 		}
-		obs = append(obs, fmt.Sprintf("co %d %d %s %d %s %s", c, k, hx.CoqBool(errd), n, hx.CoqBool(panicked), hx.CoqBool(prefixOK)))
+		obs = append(obs, fmt.Sprintf("co %d %d %s %d %s %s", c, k, hx.CoqBool(res.errd), res.n, hx.CoqBool(res.panicked), hx.CoqBool(prefixOK)))
 	}
 	ents := make([]string, len(d.Entries))
 	for i, ed := range d.Entries {
@@ -1992,6 +2037,204 @@ func genWalPath(r *hx.Rand) cutDesc {
 	return d
 }
 
+
+// ---------------------------------------------------------------- CacheLoader.Load over several segment files
+
+type loadSegDesc struct {
+	Entries []entryDesc `json:"entries"`
+	Cut     int         `json:"cut"` // -1 = not torn; otherwise clipped to the segment length
+}
+type loadDesc struct {
+	Segs []loadSegDesc `json:"segs"`
+}
+
+func runWalLoad(o *hx.Out, d loadDesc, origin string) {
+	o.Begin("walload", d)
+	dir, err := os.MkdirTemp("", "h_c13_load")
+	if err != nil {
+		panic(err)
+	}
+	defer os.RemoveAll(dir)
+	var files []string
+	type segInfo struct {
+		tbl  []string
+		segb []byte
+		cut  int
+	}
+	var infos []segInfo
+	for si, sd := range d.Segs {
+		var seg bytes.Buffer
+		w := tsm1.NewWALSegmentWriter(nopCloser{&seg})
+		var info segInfo
+		for _, ed := range sd.Entries {
+			var p []byte
+			if guard(func() { p, _ = ed.build().MarshalBinary() }) {
+				return
+			}
+			comp := snappy.Encode(nil, p)
+			if err := w.Write(ed.build().Type(), comp); err != nil {
+				panic(err)
+			}
+			info.tbl = append(info.tbl, fmt.Sprintf("(%s,%s)", coqB(p), coqB(comp)))
+		}
+		w.Flush()
+		info.segb = append([]byte{}, seg.Bytes()...)
+		info.cut = sd.Cut
+		if info.cut < 0 || info.cut > len(info.segb) {
+			info.cut = len(info.segb)
+		}
+		fn := filepath.Join(dir, fmt.Sprintf("_%05d.wal", si+1))
+		if err := os.WriteFile(fn, info.segb[:info.cut], 0666); err != nil {
+			panic(err)
+		}
+		files = append(files, fn)
+		infos = append(infos, info)
+	}
+	loadErr := false
+	panicked := guard(func() {
+		cache := tsm1.NewCache(1 << 30)
+		if err := tsm1.NewCacheLoader(files).Load(cache); err != nil {
+			loadErr = true
+		}
+	})
+	var segs []string
+	sizes := []int64{}
+	for i, info := range infos {
+		st, err := os.Stat(files[i])
+		sz := int64(-1)
+		if err == nil {
+			sz = st.Size()
+		}
+		if sz < 0 {
+			sz = 1 << 40
+		}
+		sizes = append(sizes, sz)
+		segs = append(segs, fmt.Sprintf("ls [%s] %s %d %d", strings.Join(info.tbl, ";"), coqB(info.segb), info.cut, sz))
+	}
+	coq := fmt.Sprintf("CWalLoad [%s] %s %s", strings.Join(segs, ";"), hx.CoqBool(loadErr), hx.CoqBool(panicked))
+	o.Count(fmt.Sprintf("walload:segments=%d", len(d.Segs)))
+	o.Emit(hx.Case{Kind: "walload", Coq: coq, Desc: d, Obs: map[string]interface{}{"load_err": loadErr, "panicked": panicked, "sizes_after": sizes},
+		Nontrivial: true, Sig: fmt.Sprintf("wl:%x", hashBytes([][]byte{[]byte(coq)})), Origin: origin})
+}
+
+// entries for a loader run: keys made unique per (segment, entry, type) so that the cache
+// never sees two types under one key (that is C02's business, not the log format's)
+func genLoad(r *hx.Rand) loadDesc {
+	var d loadDesc
+	nseg := 2 + r.Intn(2)
+	for si := 0; si < nseg; si++ {
+		var sd loadSegDesc
+		for ei, n := 0, 1+r.Intn(3); ei < n; ei++ {
+			e := smallEntry(r)
+			for j := range e.KVs {
+				e.KVs[j].Key = []byte(fmt.Sprintf("k%d.%d.%d.%s", si, ei, j, e.KVs[j].Typ))
+			}
+			sd.Entries = append(sd.Entries, e)
+		}
+		sd.Cut = -1
+		if si == nseg-1 || r.Chance(25) {
+			sd.Cut = r.Intn(400) // clipped to the segment length
+			if r.Chance(40) {
+				sd.Cut = []int{1, 2, 3, 4, 5, 6, 7}[r.Intn(7)]
+			}
+		}
+		d.Segs = append(d.Segs, sd)
+	}
+	return d
+}
+
+// ---------------------------------------------------------------- very long strings
+
+type bigDesc struct {
+	Lens []int  `json:"lens"`
+	Seed uint64 `json:"seed"`
+}
+
+func runBig(o *hx.Out, d bigDesc, origin string) {
+	o.Begin("big", d)
+	r := hx.NewRand(d.Seed)
+	in := make([]string, len(d.Lens))
+	for i, l := range d.Lens {
+		b := make([]byte, l)
+		for q := 0; q < l; q += 8 {
+			v := r.U64()
+			for z := 0; z < 8 && q+z < l; z++ {
+				b[q+z] = byte(v >> (8 * uint(z)))
+			}
+		}
+		in[i] = string(b)
+	}
+	h := uint64(1469598103934665603)
+	for _, s := range in {
+		for q := 0; q < len(s); q += 4099 {
+			h = (h ^ uint64(s[q])) * 1099511628211
+		}
+	}
+	same := func(got []string) bool {
+		if len(got) != len(in) {
+			return false
+		}
+		for i := range got {
+			if got[i] != in[i] {
+				return false
+			}
+		}
+		return true
+	}
+	// class of one encoder followed by BOTH decoders: 0 exact, 1 differ, 2 error, 3 panic
+	run := func(enc func() ([]byte, error)) int {
+		cls := 0
+		if guard(func() {
+			b, err := enc()
+			if err != nil {
+				cls = 2
+				return
+			}
+			b = append([]byte{}, b...)
+			var dec tsm1.StringDecoder
+			if err := dec.SetBytes(b); err != nil {
+				cls = 2
+				return
+			}
+			var got []string
+			for dec.Next() {
+				got = append(got, dec.Read())
+			}
+			if dec.Error() != nil {
+				cls = 2
+				return
+			}
+			got2, err := tsm1.StringArrayDecodeAll(b, nil)
+			if err != nil {
+				cls = 2
+				return
+			}
+			if !same(got) || !same(got2) {
+				cls = 1
+			}
+		}) {
+			cls = 3
+		}
+		return cls
+	}
+	ci := run(func() ([]byte, error) {
+		e := tsm1.NewStringEncoder(16)
+		for _, s := range in {
+			e.Write(s)
+		}
+		return e.Bytes()
+	})
+	cb := run(func() ([]byte, error) { return tsm1.StringArrayEncodeAll(in, nil) })
+	ls := make([]uint64, len(d.Lens))
+	for i, l := range d.Lens {
+		ls[i] = uint64(l)
+	}
+	coq := fmt.Sprintf("CBig %s %d %d %d", hx.CoqNList(ls), h, ci, cb)
+	o.Count("big:strings")
+	o.Emit(hx.Case{Kind: "big", Coq: coq, Desc: d, Obs: map[string]interface{}{"iter_class": ci, "batch_class": cb},
+		Nontrivial: true, Sig: fmt.Sprintf("big:%v:%d", d.Lens, d.Seed), Origin: origin})
+}
+
 // ---------------------------------------------------------------- main
 
 func designed(o *hx.Out) {
@@ -2100,6 +2343,28 @@ func designed(o *hx.Out) {
 		{Kind: "delrange", Keys: [][]byte{[]byte("cpu,host=a#!~#on")}, Min: 0, Max: 0},
 		{Kind: "delete", Keys: [][]byte{[]byte("cpu,host=a#!~#on"), []byte("mem")}},
 		{Kind: "delete", Keys: [][]byte{[]byte("aaaaaaaaaaaaaaaa"), []byte("mem")}}}}, "designed")
+	// very long strings: the model is not evaluated at these sizes (implementation-only verdict)
+	for _, l := range []int{1<<14 - 1, 1 << 14, 1<<21 - 1, 1 << 21, 1<<21 + 1} {
+		runBig(o, bigDesc{Lens: []int{l}, Seed: uint64(l)}, "designed")
+		runBig(o, bigDesc{Lens: []int{3, l, 0, 5}, Seed: uint64(l) + 1}, "designed")
+	}
+	runBig(o, bigDesc{Lens: []int{1<<21 + 7, 1 << 21, 1<<21 + 100000}, Seed: 99}, "designed")
+	// two write entries with string values followed by more entries: values must survive the
+	// decoding of later entries (they are retained until the whole segment has been read)
+	skv := func(k string, strs ...string) entryDesc {
+		kv := kvDesc{Key: []byte(k), Typ: "str"}
+		for i, x := range strs {
+			kv.Ts = append(kv.Ts, uint64(10+i))
+			kv.Strs = append(kv.Strs, []byte(x))
+		}
+		return entryDesc{Kind: "write", KVs: []kvDesc{kv}}
+	}
+	strLog := []entryDesc{skv("s1", "alpha-alpha-alpha", "beta"), skv("s2", "GAMMA-GAMMA-GAMMA", "DELT"), skv("s3", "epsilon-epsilon-ep", "zeta"),
+		{Kind: "delete", Keys: [][]byte{[]byte("s1"), []byte("s2")}}, {Kind: "delrange", Keys: [][]byte{[]byte("s3")}, Min: 1, Max: 2}, skv("s4", "eta-eta-eta-eta-et", "thet")}
+	runWalCut(o, cutDesc{Entries: strLog, Ends: true}, "designed")
+	runWalCut(o, cutDesc{Entries: strLog, Ends: true, ViaWAL: true}, "designed")
+	runWalLoad(o, loadDesc{Segs: []loadSegDesc{{Entries: strLog[:3], Cut: -1}, {Entries: strLog[3:], Cut: -1}, {Entries: strLog[:2], Cut: 30}}}, "designed")
+	runWalLoad(o, loadDesc{Segs: []loadSegDesc{{Entries: strLog[:2], Cut: -1}, {Entries: strLog[:2], Cut: 3}}}, "designed")
 	for typ := 0; typ <= 5; typ++ {
 		runWalUnm(o, unmDesc{Typ: byte(typ)}, "designed")
 		runWalUnm(o, unmDesc{Typ: byte(typ), Payload: []byte{1, 0, 1, 'k', 0, 0, 0, 1, 0, 0, 0, 0, 0, 0, 0, 5, 0, 0, 0, 0, 0, 0, 0, 9}}, "designed")
@@ -2144,6 +2409,14 @@ func main() {
 				var d cutDesc
 				json.Unmarshal(in.Desc, &d)
 				runWalCut(o, d, "replay")
+			case "walload":
+				var d loadDesc
+				json.Unmarshal(in.Desc, &d)
+				runWalLoad(o, d, "replay")
+			case "big":
+				var d bigDesc
+				json.Unmarshal(in.Desc, &d)
+				runBig(o, d, "replay")
 			}
 		}
 		return
@@ -2223,8 +2496,14 @@ func main() {
 			runBlock(o, blockDesc{Typ: typ, Ts: ts, Vals: vals[:len(ts)]}, "gen")
 		case 14, 15:
 			runWalEntry(o, genEntry(r), "gen")
-		case 16, 17:
+		case 16:
 			runWalUnm(o, genUnm(r), "gen")
+		case 17:
+			if i%40 == 17 {
+				runWalUnm(o, genUnm(r), "gen")
+			} else {
+				runWalLoad(o, genLoad(r), "gen")
+			}
 		case 18:
 			runWalCut(o, genCut(r, false), "gen")
 		default:
